@@ -45,7 +45,12 @@ def build_pool(run, wd):
         res = fm94.gen_run(wd, 'MC_c13_pool%d' % i, [ids], mversion=mv, compressions=(i % 2 == 1,), subset_counts=(2,), seeds=((r + i) % 5,), fmax=2)
         run.add_tlc(res, 'FM94 produce, pool message %d' % (i + 1))
         behs = [b for b in res.iter_emitted() if not b['err']]
-        b = behs[(len(behs) * 2) // 3]
+        # the richest behaviour: most bitmap-linked values (markers on elements whose Table B entry differs between the
+        # versions of the pool), then most entries - a fixed choice, so the pool does not depend on enumeration order
+        def rich(b):
+            ents = [e for s in b['subsets'] for e in s]
+            return (sum(1 for e in ents if e['link'] > 0), len(ents))
+        b = max(behs, key=rich)
         pool[i + 1] = {'octets': b['msg'], 'flat_json': pyb.flat_json(b['ed'], b['ids'], b['nsub'], b['cmp'], fm94.flat_values(b), ident=fm94.ident_of(b)),
                        'queries': QUERIES, 'key': mv, 'tmpl': ids}
     # a message that fails to decode AFTER its tables (a version nobody else uses) have been loaded
